@@ -774,10 +774,11 @@ func (r *runner) exec(op Op, last bool) error {
 			k := s.nSpecial + (r.key(op.K)+i)%nb
 			r.step++
 			r.desc = fmt.Sprintf("%s #%d of %+v", name, i, op)
+			g := m.ht.grew
 			if err := r.doPut(name, k, r.val(i%5+1)); err != nil {
 				return err
 			}
-			if err := r.audit(len(m.es) <= 24 || i == cnt-1 || i%16 == 0 || m.ht.n >= m.ht.thr); err != nil {
+			if err := r.audit(len(m.es) <= 24 || i == cnt-1 || i%16 == 0 || m.ht.grew != g); err != nil {
 				return err
 			}
 		}
